@@ -31,9 +31,11 @@ var floatTypes = []string{"float32", "float64"}
 
 func namedOf(t string) string { return "verifN" + strings.ToUpper(t[:1]) + t[1:] }
 
-func namedSigned() []string   { return []string{namedOf("int8"), namedOf("int16"), namedOf("int64")} }
-func namedUnsigned() []string { return []string{namedOf("uint8"), namedOf("uint32"), namedOf("uint64")} }
-func namedFloats() []string   { return []string{namedOf("float32"), namedOf("float64")} }
+func namedSigned() []string { return []string{namedOf("int8"), namedOf("int16"), namedOf("int64")} }
+func namedUnsigned() []string {
+	return []string{namedOf("uint8"), namedOf("uint32"), namedOf("uint64")}
+}
+func namedFloats() []string { return []string{namedOf("float32"), namedOf("float64")} }
 
 // witnessSource generates an in-memory file of package signal (never written
 // to disk) whose only purpose is to make go/ssa instantiate the generic
